@@ -602,6 +602,18 @@ func TestVerifC05(t *testing.T) {
 		for k := 0; k < 2; k++ {
 			res := vLint(rp.Src, nil)
 			fmt.Printf("replay %d (%s %s):\n%s\ndiagnostics: %v\n", k, rp.Family, rp.Desc, rp.Src, vDiagStrings(res.Errs))
+			if rp.Family == "positions" {
+				found := false
+				for _, d := range vDiags(res.Errs) {
+					if strings.HasPrefix(d.Msg, `property "zzundefined" is not defined`) {
+						found = true
+					}
+				}
+				if !found {
+					r.Violation("missed-undefined:position:replay", "the reference to zzundefined is not reported as undefined", rp)
+				}
+				continue
+			}
 			c05Judge(r, rp.Family, rp.Desc, rp.Src, rp.RefList, nil)
 		}
 		return
@@ -611,5 +623,83 @@ func TestVerifC05(t *testing.T) {
 	c05Needs(r, &idx)
 	c05Matrix(r, &idx)
 	c05MatrixAcrossJobs(r, &idx)
+	c05Positions(r, &idx)
 	c05InputsSecrets(r, &idx)
+}
+
+// c05Positions: at every non-exempt scalar position of the seeds and of their sibling variations
+// where the availability table allows `needs` / `steps`, a reference to a job that is not needed /
+// a step that does not exist is reported as undefined there (resolution by scope does not depend
+// on where in the workflow the expression stands, nor on the form of the neighbouring values).
+func c05Positions(r *vReport, idx *int64) {
+	cats, err := vAllCatalogues()
+	if err != nil {
+		r.HarnessError("%v", err)
+		return
+	}
+	type item struct {
+		cat       *vCatalogue
+		container string // "" = all positions
+	}
+	var items []item
+	for _, c := range cats {
+		items = append(items, item{c, ""})
+	}
+	skipped := 0
+	for _, v := range vSiblingVariations(cats, &skipped) {
+		items = append(items, item{v.Cat, v.Container})
+	}
+	undefRe := regexp.MustCompile(`^property "zzundefined" is not defined in object type`)
+	allowed := func(avail, ctx string) bool {
+		row, ok := vAvailability[avail]
+		if !ok {
+			return false
+		}
+		for _, x := range row[0] {
+			if x == ctx {
+				return true
+			}
+		}
+		return false
+	}
+	for _, it := range items {
+		for _, p := range it.cat.Scalars {
+			if it.container != "" && !vDirectChild(it.container, p.Path) {
+				continue
+			}
+			sch, ok := vSchemaOf(p.NPath)
+			if !ok || sch.Exempt {
+				continue
+			}
+			for _, ref := range []struct{ ctx, expr string }{{"needs", "needs.zzundefined.result"}, {"steps", "steps.zzundefined.outputs.x"}} {
+				if !allowed(sch.Avail, ref.ctx) {
+					continue
+				}
+				*idx++
+				if !r.Mine(*idx) {
+					continue
+				}
+				if *idx%1024 == 0 && r.Expired() {
+					return
+				}
+				text := "'${{ " + ref.expr + " }}'"
+				src := it.cat.Replace(p, text)
+				res := vLint(src, nil)
+				r.Evaluations++
+				r.Transitions++
+				r.Validated++
+				found := false
+				for _, d := range vDiags(res.Errs) {
+					if d.Line == p.Line && d.Col >= p.Col && d.Col <= p.Col+len(text) && undefRe.MatchString(d.Msg) {
+						found = true
+					}
+				}
+				if !found {
+					r.Violation("missed-undefined:position:"+ref.ctx+":"+p.NPath, fmt.Sprintf("%s: ${{ %s }} at %s (line %d) refers to nothing in scope but is not reported as undefined there; diagnostics: %v", it.cat.Seed, ref.expr, p.Path, p.Line, vTrunc(fmt.Sprint(vDiagStrings(res.Errs)), 300)),
+						map[string]any{"family": "positions", "src": src, "refs": []any{}})
+				}
+				r.Class("positions "+ref.ctx, true)
+			}
+		}
+	}
 }
